@@ -124,7 +124,13 @@ DATE_LAYOUTS = ['iso', 'Month d, yyyy', 'm/d/yyyy', 'd Month yyyy']
 
 def time_text(t):
     """t = [h24, m, style] -> unambiguous clock time text"""
-    h, m, style = t
+    h, m, style = t[0], t[1], t[2]
+    sec = t[3] if len(t) > 3 else None
+    if sec is not None:
+        # seconds written out (date-time range endpoints only)
+        if style == '24':
+            return '%02d:%02d:%02d' % (h, m, sec)
+        return '%d:%02d:%02d%s%s' % (h % 12 or 12, m, sec, ' ' if style == 'ampm-blank' else '', 'am' if h < 12 else 'pm')
     if style == 'word':
         return {(12, 0): 'noon', (0, 0): 'midnight'}[(h, m)]
     if style == '24':
@@ -137,10 +143,21 @@ def time_text(t):
     return '%d:%02d%s%s' % (h12, m, sp, suffix)
 
 
+YEARLESS_FIRST = {'Month d, yyyy': lambda d: '%s %d' % (G.MONTHS['en'][d.month - 1], d.day),
+                  'd Month yyyy': lambda d: '%d %s' % (d.day, G.MONTHS['en'][d.month - 1]),
+                  'the dth of Month yyyy': lambda d: 'the %d%s of %s' % (d.day, G.ordinal_suffix(d.day), G.MONTHS['en'][d.month - 1])}
+EXTRA_LAYOUTS = {'the dth of Month yyyy': lambda d: 'the %d%s of %s %d' % (d.day, G.ordinal_suffix(d.day), G.MONTHS['en'][d.month - 1], d.year)}
+
+
 def endpoint_text(ep):
     kind = ep['kind']
     if kind == 'date':
-        return G.EN_LAYOUTS[ep['layout']](dt.date.fromisoformat(ep['date']))
+        d = dt.date.fromisoformat(ep['date'])
+        if ep.get('omit_year'):
+            return YEARLESS_FIRST[ep['layout']](d)
+        if ep['layout'] in EXTRA_LAYOUTS:
+            return EXTRA_LAYOUTS[ep['layout']](d)
+        return G.EN_LAYOUTS[ep['layout']](d)
     if kind == 'time':
         return time_text(ep['time'])
     return G.EN_LAYOUTS[ep['layout']](dt.date.fromisoformat(ep['date'])) + ' ' + time_text(ep['time'])
@@ -182,7 +199,7 @@ def run_range(case):
     def ep_value(ep):
         if ep['kind'] == 'date':
             return ep['date']
-        t = '%02d:%02d:00' % (ep['time'][0], ep['time'][1])
+        t = '%02d:%02d:%02d' % (ep['time'][0], ep['time'][1], (ep['time'][3] if len(ep['time']) > 3 and ep['time'][3] is not None else 0))
         return t if ep['kind'] == 'time' else ep['date'] + ' ' + t
     ws, we = ep_value(case['a']), ep_value(case['b'])
     ok = (len(got) == 1 and G.covers(got[0], q, pos, expr) and got[0]['type'] == 'datetimeV2.' + typ and got[0]['values'] is not None and
@@ -259,7 +276,16 @@ def range_cases():
         return ({'kind': 'date', 'date': d1.isoformat(), 'layout': l1}, {'kind': 'date', 'date': d2.isoformat(), 'layout': l2})
     gaps = st.one_of(st.integers(1, 40), st.integers(1, 800), st.sampled_from([1, 28, 29, 30, 31, 365, 366]))
     lay = st.sampled_from(DATE_LAYOUTS)
-    dates = st.builds(date_pair, G.dates(), gaps, lay, lay)
+
+    def shared_year(d1, gap, l):
+        # the year is written once, on the second endpoint ('from January 4 to February 22, 2017')
+        d2 = d1 + TD(days=gap)
+        if d2.year != d1.year:
+            d1 = d1.replace(month=1, day=min(d1.day, 28))
+            d2 = d1 + TD(days=gap % 300 + 1)
+        return ({'kind': 'date', 'date': d1.isoformat(), 'layout': l, 'omit_year': True}, {'kind': 'date', 'date': d2.isoformat(), 'layout': l})
+    dates = st.one_of(st.builds(date_pair, G.dates(), gaps, lay, lay), st.builds(date_pair, G.dates(), gaps, lay, lay),
+                      st.builds(shared_year, G.dates(), st.integers(1, 300), st.sampled_from(sorted(YEARLESS_FIRST))))
     style = st.sampled_from(['24', 'ampm', 'ampm-blank', 'ampm-minutes'])
 
     def time_pair(t1, t2, s1, s2, overnight):
@@ -282,13 +308,24 @@ def range_cases():
     times = st.builds(time_pair, minute, minute, style, style, st.sampled_from([False, False, True]))
     times_day = st.builds(time_pair, minute, minute, style, style, st.just(False))
 
-    def dt_pair(dp, tp):
+    def dt_pair(dp, tp, sa=None, sb=None):
         (a, b), (ta, tb) = dp, tp
+        a = {k: v for k, v in a.items() if k != 'omit_year'}
+        if a['layout'] in EXTRA_LAYOUTS:
+            a = dict(a, layout='Month d, yyyy')
+        if b['layout'] in EXTRA_LAYOUTS:
+            b = dict(b, layout='Month d, yyyy')
 
         def noword(t):
             return [t[0], t[1], 'ampm' if t[2] == 'word' else t[2]]     # '<date> midnight' is not a date-time expression
-        return (dict(a, kind='datetime', time=noword(ta['time'])), dict(b, kind='datetime', time=noword(tb['time'])))
-    dts = st.builds(dt_pair, dates, times_day)
+        ta2, tb2 = noword(ta['time']), noword(tb['time'])
+        if sa is not None:
+            ta2 = ta2 + [sa]
+        if sb is not None:
+            tb2 = tb2 + [sb]
+        return (dict(a, kind='datetime', time=ta2), dict(b, kind='datetime', time=tb2))
+    secs = st.sampled_from([None, None, None, 0, 20, 59])
+    dts = st.builds(dt_pair, dates, times_day, secs, secs)
     return st.builds(lambda p, f, ci, r: {'a': p[0], 'b': p[1], 'frame': f, 'carrier': RANGE_CARRIERS[ci], 'ref': r},
                      st.one_of(dates, times, times, dts), st.sampled_from(['from-to', 'between-and']), st.integers(0, 5), G.refs())
 
